@@ -141,3 +141,33 @@ package kzg
 //@ ensures[accept] isnil(result) ==> folded && verified
 //@ modifies nothing
 //@ end
+
+// Batch verification at several points: guards, delegation to Verify for a single proof, acceptance only on a
+// successful pairing check, and the caller's slices untouched (the products lambda_i * p_i are formed in the
+// function's own slice of random numbers). What the folded operands of the pairing check are is not stated here
+// (the proofs are a slice of structures, whose contents are not modelled).
+//@ func BatchVerifyMultiPoints
+//@ layer ring fr.Element bigint big.Int opaque bls12377.G1Affine bls12377.G1Jac bls12377.G2Affine bls12377.LineEvaluationAff
+//@ option nomerge
+//@ option opaque-calls
+//@ ghost single = false
+//@ ghost checked = false
+//@ cut after call Verify #1
+//@ + ghost single = isnil(callresult)
+//@ cut after call PairingCheckFixedQ #1
+//@ + ghost checked = callresult0 && isnil(callresult1)
+//@ loop 0
+//@ + invariant[random] 1 <= i && len(randomNumbers) == len(digests) && len(digests) == len(proofs) && len(digests) == len(points) && len(digests) >= 2 && randomNumbers[0] == 1 && forall(j, 0, len(points), points[j] == old(points[j]))
+//@ loop 1
+//@ + invariant[quotients] 0 <= i && len(randomNumbers) == len(digests) && len(quotients) == len(proofs) && len(digests) == len(proofs) && len(digests) == len(points) && len(digests) >= 2 && forall(j, 0, len(points), points[j] == old(points[j]))
+//@ loop 2
+//@ + invariant[evals] 0 <= i && len(randomNumbers) == len(digests) && len(evals) == len(digests) && len(quotients) == len(proofs) && len(digests) == len(proofs) && len(digests) == len(points) && len(digests) >= 2 && forall(j, 0, len(points), points[j] == old(points[j]))
+//@ loop 3
+//@ + invariant[products] 0 <= i && len(randomNumbers) == len(digests) && len(quotients) == len(proofs) && len(digests) == len(proofs) && len(digests) == len(points) && len(digests) >= 2 && forall(j, 0, len(points), points[j] == old(points[j]))
+//@ ensures[sizes] (len(digests) != len(proofs) || len(digests) != len(points)) ==> result == ErrInvalidNbDigests
+//@ ensures[empty] len(digests) == len(proofs) && len(digests) == len(points) && len(digests) == 0 ==> result == ErrZeroNbDigests
+//@ ensures[single] len(digests) == len(proofs) && len(digests) == len(points) && len(digests) == 1 ==> isnil(result) == single
+//@ ensures[accept] len(digests) >= 2 && isnil(result) ==> checked
+//@ ensures[input] forall(j, 0, len(points), points[j] == old(points[j]))
+//@ modifies nothing
+//@ end
